@@ -10,6 +10,7 @@ package main
 import (
 	"bytes"
 	"fmt"
+	"net"
 	"reflect"
 	"sync"
 	"sync/atomic"
@@ -19,6 +20,7 @@ import (
 	"verifharness/hv"
 	"verifharness/px"
 
+	"github.com/datastax/cql-proxy/codecs"
 	"github.com/datastax/cql-proxy/proxy"
 	"github.com/datastax/cql-proxy/proxycore"
 	"github.com/datastax/go-cassandra-native-protocol/message"
@@ -336,6 +338,7 @@ func genC14(ctx *Ctx) {
 		ctx.Count("history")
 	}
 	c14Concurrent(ctx, be, env, evs, &nextID)
+	c14Backlogged(ctx, be, env, evs, &nextID)
 	_ = proxy.Config{}
 	_ = bytes.MinRead
 }
@@ -343,6 +346,98 @@ func genC14(ctx *Ctx) {
 // c14Concurrent: a steady stream of schema events while clients connect, register and leave on
 // their own schedule.  Per client: the events it received, and the number of events that had
 // been emitted when it saw READY.
+// c14Backlogged: a registered client that has pipelined tens of thousands of requests and is not reading (its socket
+// buffers and the proxy's queue for it are full) when schema events are announced; it then reads everything.  It is
+// connected and registered: it must find every event, once, among the answers; so must a client that reads normally.
+func c14Backlogged(ctx *Ctx, be *fb.Backend, env *px.Env, evs *c14Events, nextID *int) {
+	const v = primitive.ProtocolVersion4
+	for round := 0; round < ctx.Scale(1, 4); round++ {
+		conn, err := net.DialTimeout("tcp", env.Addr, 5*time.Second)
+		if err != nil {
+			panic(err)
+		}
+		_ = conn.SetDeadline(time.Now().Add(120 * time.Second))
+		slow := &px.Client{C: conn, Codec: codecs.DefaultRawCodec}
+		_, _ = conn.Write(slow.Encode(v, 1, message.NewStartup(), nil))
+		if f, err := px.ReadFrame(conn); err != nil || f.Opcode != byte(primitive.OpCodeReady) {
+			panic("c14: startup of the backlogged client")
+		}
+		_, _ = conn.Write(slow.Encode(v, 2, &message.Register{EventTypes: []primitive.EventType{primitive.EventTypeSchemaChange}}, nil))
+		if f, err := px.ReadFrame(conn); err != nil || f.Opcode != byte(primitive.OpCodeReady) {
+			panic("c14: register of the backlogged client")
+		}
+		fast := c14Dial(env, ctx.Rng)
+		_ = fast.cl.Send(fast.ver, 1, &message.Register{EventTypes: []primitive.EventType{primitive.EventTypeSchemaChange}})
+		if f, _ := fast.cl.Next(5 * time.Second); f == nil {
+			panic("c14: register of the fast client")
+		}
+		ops := []hv.V{hv.L(hv.I(0), hv.I(0)), hv.L(hv.I(1), hv.I(0), hv.Bool(true)), hv.L(hv.I(0), hv.I(1)), hv.L(hv.I(1), hv.I(1), hv.Bool(true))}
+		// the backlog: queries the proxy answers by itself, written by a goroutine because the writes block once everything is full
+		nq := ctx.Scale(40000, 120000)
+		one := slow.Encode(v, 7, &message.Query{Query: "SELECT * FROM system.local", Options: &message.QueryOptions{}}, nil)
+		wrote := make(chan struct{})
+		go func() {
+			defer close(wrote)
+			batch := bytes.Repeat(one, 500)
+			for i := 0; i < nq/500; i++ {
+				if _, err := conn.Write(batch); err != nil {
+					return
+				}
+			}
+		}()
+		time.Sleep(1500 * time.Millisecond) // the answers pile up
+		er := hv.NewRng(ctx.Rng.Next())
+		for k := 0; k < 3; k++ {
+			id := *nextID
+			*nextID++
+			be.Event(evs.schema(id, er))
+			ops = append(ops, hv.L(hv.I(3), hv.I(0), hv.I(int64(id))))
+			time.Sleep(20 * time.Millisecond)
+		}
+		time.Sleep(300 * time.Millisecond)
+		// now read everything
+		var gotSlow []int
+		answers := 0
+		for answers < nq/500*500 {
+			f, err := px.ReadFrame(conn)
+			if err != nil {
+				break
+			}
+			if f.Opcode == byte(primitive.OpCodeEvent) {
+				gotSlow = append(gotSlow, evs.classify(slow, f))
+			} else {
+				answers++
+			}
+		}
+		<-wrote
+		// events announced while the last answers were being read arrive after them: one more round trip
+		_, _ = conn.Write(slow.Encode(v, 9, &message.Options{}, nil))
+		for {
+			f, err := px.ReadFrame(conn)
+			if err != nil {
+				break
+			}
+			if f.Opcode == byte(primitive.OpCodeEvent) {
+				gotSlow = append(gotSlow, evs.classify(slow, f))
+			} else if f.Stream == 9 {
+				break
+			}
+		}
+		_ = conn.Close()
+		fast.drain(evs)
+		fast.cl.Close()
+		var a, b []hv.V
+		for _, x := range gotSlow {
+			a = append(a, hv.I(int64(x)))
+		}
+		for _, x := range fast.got {
+			b = append(b, hv.I(int64(x)))
+		}
+		ctx.Emit(hv.L(hv.I(2), hv.L(ops...)), hv.L(hv.L(a...), hv.L(b...)), fmt.Sprintf("backlogged client: %d answers read after the events", answers))
+		ctx.Count("backlogged-client")
+	}
+}
+
 func c14Concurrent(ctx *Ctx, be *fb.Backend, env *px.Env, evs *c14Events, nextID *int) {
 	r := ctx.Rng
 	for round := 0; round < ctx.Scale(3, 30); round++ {
